@@ -125,7 +125,13 @@ impl Pacer {
 
         // divisions come before multiplications to prevent overflow
         // this is the time at which the pacing window becomes empty
-        Some(now + (unscaled_delay / 5) * 4)
+        let delay = (unscaled_delay / 5) * 4;
+        if delay.is_zero() {
+            // The missing tokens accrue in less than the clock's resolution. Asking to be polled
+            // again at `now` would make the caller spin without time, and hence tokens, advancing.
+            return None;
+        }
+        Some(now + delay)
     }
 }
 
